@@ -10,7 +10,7 @@ Require Import Zrs.lib.RsPrelude Zrs.model.BitIO Zrs.model.FseDec Zrs.model.HufD
 Require Import Zrs.proofs.C13_Huffman.
 Require Import Zrs.model.BitIO Zrs.model.BitStream Zrs.model.HufDec Zrs.proofs.C12_Stream Zrs.proofs.C13_Stream.
 Require Import Zrs.gen.Generated Zrs.model.Headers Zrs.model.BlockDec Zrs.model.LitEnc Zrs.proofs.C13_LitSection.
-Require Import Zrs.proofs.C13_Canonical Zrs.proofs.C13_CanonCode Zrs.proofs.C13_LitAll Zrs.proofs.C13_Direct.
+Require Import Zrs.proofs.C03_HufTable Zrs.proofs.C13_Canonical Zrs.proofs.C13_CanonCode Zrs.proofs.C13_LitAll Zrs.proofs.C13_Direct.
 Require Import Zrs.model.SeqEnc Zrs.model.FseEnc Zrs.model.WeightEnc Zrs.proofs.C12_SeqStream Zrs.proofs.C12_Desc Zrs.proofs.C13_WeightStream Zrs.proofs.C13_WeightDesc Zrs.proofs.C13_WeightTable.
 Open Scope Z_scope.
 
@@ -87,7 +87,9 @@ Theorem C13_decoder_table_is_a_complete_prefix_code : forall ws dec M bits ranks
        (n < Z.to_nat M)%nat /\ 0 <= s < Z.of_nat (length bits) /\ 0 <= base /\ base + 2 ^ Z.of_nat n <= 2 ^ M /\ base mod 2 ^ Z.of_nat n = 0 /\
        forall i, base <= i < base + 2 ^ Z.of_nat n -> nth_h dec i = {| h_sym := s; h_bits := M - Z.of_nat n |}) /\
     (forall i, 0 <= i < 2 ^ M -> exists s base n, In (s, base, n) placed /\ base <= i < base + 2 ^ Z.of_nat n) /\
-    (forall j, (j < length bits)%nat -> 0 < nth j bits 0 -> exists base, In (Z.of_nat j, base, Z.to_nat (M - nth j bits 0)) placed).
+    (forall j, (j < length bits)%nat -> 0 < nth j bits 0 -> exists base, In (Z.of_nat j, base, Z.to_nat (M - nth j bits 0)) placed /\
+       (* the canonical place: after the blocks of all longer codes and of the smaller symbols with the same length *)
+       base = region M ranks (Z.to_nat (M - nth j bits 0)) + cnt (nth j bits 0) (firstn j bits) * 2 ^ (M - nth j bits 0)).
 Proof. exact built_table_blocks. Qed.
 
 (** ... hence the code word read off the table for a symbol (first index, shortened to the code length) is well formed,
